@@ -234,6 +234,9 @@ func (g *Gen) needRunes() {
 	g.declare("(assert (forall ((s Str) (k Int)) (! (=> (and (<= 0 k) (< k (rune_count s)) (>= (str_at s (rune_pos s k)) 128)) (>= (rune_val s k) 128)) :pattern ((rune_val s k)))))")
 	g.declare("(assert (forall ((s Str) (k Int)) (! (=> (and (<= 0 k) (< (+ k 1) (rune_count s))) (< (rune_pos s k) (rune_pos s (+ k 1)))) :pattern ((rune_pos s (+ k 1))))))")
 	g.declare("(assert (forall ((s Str)) (! (=> (> (str_len s) 0) (and (> (rune_count s) 0) (= (rune_pos s 0) 0))) :pattern ((rune_count s)))))")
+	// every byte belongs to exactly one rune of the iteration (rune_of); a rune whose first byte is ASCII is that single byte
+	g.declare("(declare-fun rune_of (Str Int) Int)")
+	g.declare("(assert (forall ((s Str) (i Int)) (! (=> (and (<= 0 i) (< i (str_len s))) (and (<= 0 (rune_of s i)) (< (rune_of s i) (rune_count s)) (<= (rune_pos s (rune_of s i)) i) (>= (rune_val s (rune_of s i)) 0) (=> (< (str_at s (rune_pos s (rune_of s i))) 128) (= (rune_pos s (rune_of s i)) i)))) :pattern ((str_at s i)))))")
 }
 
 // callLib models a call to a function outside the repository.
